@@ -10,11 +10,11 @@ PROP = {
     "rule": HIST_RULE + " Emphasis C03: same infohash, peer ID and port announced in both families in every history.",
     "tags": HIST_TAGS, "reasons": HIST_REASONS, "assumptions": HIST_ASSUMPTIONS,
     "trivial_tags": [], "min_tags": 4,
-    "explanation": "Coq theorems: an announce never changes the swarm of the other family (any infohash), the memory store's shard halves separate the families, the stores refine the family-keyed specification (C01); wire formats are covered by the C08/C09 theorems. Tied to the code by histories that use the same infohash/ID/port in both families: returned peers must have the requester's address length, the right response list must be filled, and stored memberships must sit in a swarm of their own family.",
+    "explanation": "Coq theorems: an announce never changes anything observable of the other family's swarm of any infohash (specification, memory store, Redis store), the memory store's shard halves separate the families, the peer of an accepted request belongs to the family it is filed under (IPv4-mapped narrowed), in EVERY reachable state every peer handed out is of the requester's family (spec / memory / Redis), and the UDP response consists of entries of the requester family's width (6 / 18 bytes) end to end; HTTP wire formats are the C08 theorems. Tied to the code by histories that use the same infohash/ID/port in both families: returned peers must have the requester's address length, the right response list must be filled, and stored memberships must sit in a swarm of their own family.",
 }
 
 CLAIM = {
-    "text": "Coq theorems: an announce never changes the swarm of the other family (any infohash), the memory store's shard halves separate the families, the stores refine the family-keyed specification (C01); wire formats are covered by the C08/C09 theorems. Tied to the code by histories that use the same infohash/ID/port in both families: returned peers must have the requester's address length, the right response list must be filled, and stored memberships must sit in a swarm of their own family.",
+    "text": "Coq theorems: an announce never changes anything observable of the other family's swarm of any infohash (specification, memory store, Redis store), the memory store's shard halves separate the families, the peer of an accepted request belongs to the family it is filed under (IPv4-mapped narrowed), in EVERY reachable state every peer handed out is of the requester's family (spec / memory / Redis), and the UDP response consists of entries of the requester family's width (6 / 18 bytes) end to end; HTTP wire formats are the C08 theorems. Tied to the code by histories that use the same infohash/ID/port in both families: returned peers must have the requester's address length, the right response list must be filled, and stored memberships must sit in a swarm of their own family.",
     "design_ref": "DESIGN.md section 8, C03",
     "note": 'Trusted: as C01. IPv4-mapped sources are folded by the frontends before the logic sees them (C06/C07/C11 cover that); compact/dictionary/UDP entry widths are C08/C09.',
     "technique": "Coq refinement/invariant proofs over executable Gallina store models + differential history correspondence (vm_compute)",
